@@ -175,6 +175,7 @@ impl Resolver<'_> {
             }
             "window" => {
                 let [rows, range, expanding, rolling, pipeline, tbl] = unpack::<6>(func.args);
+                let (rows_span, range_span) = (rows.span, range.span);
 
                 let expanding = {
                     let as_bool = expanding.kind.as_literal().and_then(|l| l.as_boolean());
@@ -229,11 +230,12 @@ impl Resolver<'_> {
                 // `rows` and `range` default to the empty range 0..-1, which stands for "not given".
                 // Any other empty range is a mistake: it used to be taken for "not given" as well
                 // (the whole partition) instead of the empty segment it denotes.
-                for (name, r) in [("rows", &rows), ("range", &range)] {
+                for (name, r, span) in [("rows", &rows, rows_span), ("range", &range, range_span)] {
                     if range_is_empty(r) && *r != (Some(0), Some(-1)) {
                         return Err(Error::new_simple(format!(
                             "window: `{name}` is an empty range (its start is after its end)"
-                        )));
+                        ))
+                        .with_span(span));
                     }
                 }
 
@@ -370,7 +372,9 @@ impl Resolver<'_> {
                     return Err(Error::new_simple(
                         "cannot match up the columns of these relations: one of them has unknown columns",
                     )
-                    .push_hint("select the same columns on both sides"));
+                    .push_hint("select the same columns on both sides")
+                    // (a span of std.prql: `fold_function` moves it to the call in the user's source)
+                    .with_span(func.body.span));
                 }
 
                 let mut res = Vec::new();
@@ -760,9 +764,10 @@ impl TransformCall {
                 join(left, right)
             }
             Append(bottom) => {
+                let bottom_span = bottom.span;
                 let top = lineage_or_default(&self.input)?;
                 let bottom = lineage_or_default(bottom)?;
-                append(top, bottom)?
+                append(top, bottom).with_span(bottom_span)?
             }
             Loop(_) => lineage_or_default(&self.input)?,
             Sort { .. } | Filter { .. } | Take { .. } => lineage_or_default(&self.input)?,
